@@ -791,3 +791,45 @@ func (w *World) TinyCreate(st *state.StateDB, lu int64) (TxInfo, common.Address)
 		MainPubKey: w.Keys.ValMainPub(key), BlsPubKey: w.Keys.ValBlsPub(key)}
 	return *w.stk(u, staking.ValidatorCreate, tx, gasCreate, "stk.create", "valid", tx.Value), w.VA(key)
 }
+
+// BeginScript resets the working nonces from st (scripted blocks do not go through GenBlock).
+func (w *World) BeginScript(st *state.StateDB) {
+	w.nonces = map[common.Address]uint64{}
+	w.touched = map[common.Address]bool{}
+	for i := 0; i < w.Sc.Users; i++ {
+		w.nonces[w.UA(i)] = st.GetNonce(w.UA(i))
+	}
+}
+
+// StakingTx is a staking transaction of user u for scripted blocks (gas price 1 gwei).
+func (w *World) StakingTx(u int, action staking.ActionType, payload interface{}, kind string, detain *big.Int) TxInfo {
+	bs, err := rlp.EncodeToBytes(payload)
+	if err != nil {
+		panic(err)
+	}
+	data, err := rlp.EncodeToBytes(&staking.Message{Action: action, Payload: bs})
+	if err != nil {
+		panic(err)
+	}
+	gas := uint64(gasStk)
+	if action == staking.ValidatorCreate {
+		gas = gasCreate
+	}
+	from, to := w.UA(u), params.StakingModuleAddress
+	return TxInfo{Tx: w.sign(u, &to, nil, gas, big.NewInt(1000000000), data, w.nonce(from, true)), Kind: kind, Variant: "scripted", From: from, To: &to, Detain: detain}
+}
+
+// StoreContractInit is the creation code of the storage-writer contract (SSTORE(calldata[0:32], calldata[32:64])).
+func StoreContractInit() []byte { return Initcode(codeStore) }
+
+// EVMTx is a plain/EVM transaction of user u for scripted blocks (gas price 1 gwei); to == nil creates.
+func (w *World) EVMTx(u int, to *common.Address, value *big.Int, gas uint64, data []byte, kind string) (TxInfo, common.Address) {
+	from := w.UA(u)
+	nonce := w.nonce(from, true)
+	var created common.Address
+	if to == nil {
+		created = crypto.CreateAddress(from, nonce)
+		w.U.AddAddr(created)
+	}
+	return TxInfo{Tx: w.sign(u, to, value, gas, big.NewInt(1000000000), data, nonce), Kind: kind, Variant: "scripted", From: from, To: to}, created
+}
